@@ -50,8 +50,8 @@ def rowcount_rule(ctx, rule, only_modules=None):
         cfg = CFG(f)
         for st in stores:
             base = _base(st.targets[0])
-            if base is None:
-                continue
+            if base is None or not base.split('.')[-1].endswith('fmd'):
+                continue     # `self.row_groups` of a handle is a derived attribute, not file metadata
             found += 1
             nr = set()
             for s2 in iter_child_stmts(f.body):
